@@ -28,6 +28,7 @@ THEOREMS = [
     "Verif.C07.frameItem_roi_indep",
     "Verif.C07.crop_frames_commute",
     "Verif.C07.getitem_tuple_decomposes",
+    "Verif.C07.step_positive_preserved",
     "Verif.C07.F2_witness",
     "Verif.C07.roi_crop_refines",
     "Verif.C07.roi_apply_shape",
